@@ -56,6 +56,22 @@ MUTANTS = [
     ('c13-start-work-no-shutdown', 'C13', FF + 'part_processor.py', "    def start_work(self, tag):\n        self.shutdown()", "    def start_work(self, tag):\n        pass"),
     ('c13-fail-drops-output', 'C13', FF + 'part_processor.py', "        lost_part = self._part\n        self._part = None\n", "        lost_part = self._part\n        self._part = None\n        self._output = None\n"),
     ('c13-util-not-restarted', 'C13', FF + 'part_processor.py', "        if self._part != None:\n            self._last_use_start = self.env.now\n\n        for c in self._restored_callbacks", "        for c in self._restored_callbacks"),
+    ('c10-no-check-after-add', 'C10', M + 'resource_manager.py', "            self._record_resource_amount_update(resource_name)\n            self._schedule_check_pending_requesters()\n\n    def reserve_resources",
+     "            self._record_resource_amount_update(resource_name)\n\n    def reserve_resources"),
+    ('c10-no-check-after-register', 'C10', M + 'resource_manager.py', "        self._waiting_requests.append((copy.deepcopy(request), callback))\n        self._schedule_check_pending_requesters()",
+     "        self._waiting_requests.append((copy.deepcopy(request), callback))"),
+    ('c10-no-check-after-release', 'C10', M + 'resource_manager.py', "            self._record_resource_amount_update(resource_name)\n        self._schedule_check_pending_requesters()\n\n    def _can_fulfill_request",
+     "            self._record_resource_amount_update(resource_name)\n\n    def _can_fulfill_request"),
+    ('c10-lifo', 'C10', M + 'resource_manager.py', "self._waiting_requests.append((copy.deepcopy(request), callback))", "self._waiting_requests.insert(0, (copy.deepcopy(request), callback))"),
+    ('c10-skip-two', 'C10', M + 'resource_manager.py', "            else:\n                i += 1\n\n    def _release_resources", "            else:\n                i += 2\n\n    def _release_resources"),
+    ('c10-no-copy', 'C10', M + 'resource_manager.py', "self._waiting_requests.append((copy.deepcopy(request), callback))", "self._waiting_requests.append((request, callback))"),
+    ('c12-lifo', 'C12', FF + 'maintainer.py', "        self._request_queue.append(request)", "        self._request_queue.insert(0, request)"),
+    ('c12-wrong-return', 'C12', FF + 'maintainer.py', "        self.try_working_requests()\n        return True", "        self.try_working_requests()\n        return False"),
+    ('c12-skip-entries', 'C12', FF + 'maintainer.py', "            else:\n                i += 1\n\n    def _start_work_order", "            else:\n                i += 2\n\n    def _start_work_order"),
+    ('c12-not-cleared', 'C12', FF + 'maintainer.py', "        self._active_requests.remove(request)\n", ""),
+    ('c12-capacity-strict', 'C12', FF + 'maintainer.py', "if self._utilization <= self._capacity - req.needed_capacity", "if self._utilization < self._capacity - req.needed_capacity"),
+    ('c12-no-rescan-on-finish', 'C12', FF + 'maintainer.py', "        self._record_work_order_datapoint('finish_work_order', request)\n\n        self.try_working_requests()", "        self._record_work_order_datapoint('finish_work_order', request)"),
+    ('c12-two-on-target', 'C12', FF + 'maintainer.py', "                    and len(other_work_orders) == 0:", "                    and len(other_work_orders) <= 1:"),
     ('c09-neg-capacity', 'C09', M + 'resource_manager.py', 'if amount < 0 and max_available + amount < 0:', 'if amount < 0 and max_available + amount < -1:'),
     ('c09-skip-check-1', 'C09', M + 'resource_manager.py', 'if self._reserved_resources[resource_name] < amount:',
      'if amount != 1 and self._reserved_resources[resource_name] < amount:'),
